@@ -7,6 +7,7 @@ from the object).  Oracle: support, balance, signs, m_rem <= mto, and exact
 conservation of the object count along full runs with everything retained.
 """
 import math
+import warnings
 
 import numpy as np
 
@@ -92,6 +93,33 @@ def run(chk):
         if ci == 0:
             chk.samples.append(dict(case=meta[0][0], impl=C.jsonable(meta[0][1])[:2]))
     chk.correspondence("sev_field (1e-9) vs EvolvedMF._derivs_sev on arbitrary (t, y)", ncase, dis)
+    # ---- the retention fractions scale the remnant flux whatever the OTHER options are: natal kicks (applied at the output ages, not in the
+    #      derivative), either kick method, a dynamical retention below one. Fixed configurations, nothing drawn from rng. ------------------
+    emf_, *_ = U.mods()
+    for kwk in (dict(natal_kicks=True, BH_ret_int=0.5, BH_ret_dyn=0.05, NS_ret=0.1),
+                dict(natal_kicks=True, BH_ret_int=0.25, BH_ret_dyn=0.1, NS_ret=0.6, kick_method="maxwellian"),
+                dict(natal_kicks=False, BH_ret_int=0.5, BH_ret_dyn=0.05, NS_ret=0.1)):
+        try:
+            with warnings.catch_warnings():
+                warnings.simplefilter("ignore")
+                mk = emf_.EvolvedMF.from_powerlaw(m_breaks=[0.1, 0.5, 1.0, 100], a_slopes=[-0.5, -1.3, -2.5], nbins=[5, 5, 20], FeH=-1.0,
+                                                  tout=[50.0], esc_rate=0.0, N0=5e5, vesc=90, **kwk)
+        except Exception as e:  # noqa
+            chk.notes.append("C02 retention-with-kicks block: constructor refused %r (%s)" % (kwk, type(e).__name__))
+            continue
+        mbk = mk.massbins
+        y0 = mbk.initial_values(N0=mk.N0)
+        for m_to, cls_, fr in ((37.3, "BH", kwk["BH_ret_int"]), (60.0, "BH", kwk["BH_ret_int"]), (12.0, "NS", kwk["NS_ret"]), (3.0, "WD", 1.0)):
+            tq = float(mk.compute_tms(m_to))
+            if mk.IFMR.predict_type(float(mk.compute_mto(np.array(tq)))) != cls_:
+                continue
+            dNs_, _dal, dNr_, dMr_ = mbk.unpack_values(mk._derivs_sev(tq, y0.copy()), grouped_rem=True)
+            lost, gained = -float(np.sum(dNs_)), float(np.sum(getattr(dNr_, cls_)))
+            case_k = dict(options={k_: v_ for k_, v_ in kwk.items()}, turn_off_mass=m_to, t=tq, cls=cls_)
+            chk.note_distinct(case_k)
+            if not (lost > 0 and abs(gained - fr * lost) <= 1e-10 * lost):
+                chk.fail("remnants appear at the retention fraction of their class times the rate at which stars leave, whatever the kick options",
+                         case_k, dict(stars_leaving=lost, remnants_created=gained, retention=fr))
     # ---- trajectories: exact conservation of the object count ----------------
     full_runs(chk)
     chk.trusted += ["harness/props/C02.py, fieldutil.py (carriers, arbitrary states)",
